@@ -369,7 +369,7 @@ func TestVerifC07(t *testing.T) {
 		timedOut := false
 		nm := len(c07Matchers)
 		var shapes [][3]int // children, grandchildren under child 1, under child 2
-		for c := 0; c <= 2; c++ {
+		for c := 0; c <= 3; c++ {
 			for g1 := 0; g1 <= 2; g1++ {
 				for g2 := 0; g2 <= 2; g2++ {
 					if (c < 1 && g1 > 0) || (c < 2 && g2 > 0) || c+g1+g2 > maxNodes+1 {
@@ -430,7 +430,7 @@ func TestVerifC07(t *testing.T) {
 			rec(0, nil)
 		}
 		R.Exhaustive = !timedOut
-		R.Bound = fmt.Sprintf("all trees root + <=2 children + <=2 grandchildren per child with <= %d non-root nodes, %d matcher kinds x continue per node (4 kinds for grandchildren in the largest shapes), x 9 label sets", maxNodes+1, nm)
+		R.Bound = fmt.Sprintf("all trees root + <=3 children + <=2 grandchildren under each of the first two children, with <= %d non-root nodes, %d matcher kinds x continue per node (4 kinds for grandchildren in the largest shapes), x 9 label sets", maxNodes+1, nm)
 		R.Sample(map[string]any{"example_tree": c07Config(&c07Node{recv: "r0", kids: []*c07Node{{m: 3, cont: true, recv: "r1", kids: []*c07Node{{m: 5, recv: "r2"}}}, {m: 6, recv: "r3"}}})})
 		R.Write()
 	}
